@@ -6,6 +6,11 @@
 //! f64 references for CKKS with a derived worst-case tolerance, `BigU` arithmetic mod prod t_i
 //! (slot-wise and negacyclic-polynomial) for rns_plain.
 //!
+//! Findings at the time of writing (reported, not special-cased): Conv2dHelper::encode_weights_* sizes its buffer with
+//! image_height instead of image_height_block (panic when the image is split along the height), and
+//! MatmulHelper/Conv2dHelper::decrypt_outputs_bfv index the decrypted plaintext although BFV decryption trims
+//! trailing zero coefficients (panic whenever the highest output coefficients are zero).
+//!
 //! "accepted" = the helper constructor returned. After that every panic and every mismatch is a
 //! violation (all operand values are inside the noise precondition stated in `PropMeta`).
 
@@ -460,7 +465,8 @@ fn cheetah_case(cfg: &Cfg, grp: &'static str, case: u64, rng: &mut Rng, rep: &mu
             }
         };
         for &dir in dirs {
-            let vclass = *rng.pick(&U_CLASSES);
+            let sampled = !large && ((case == 234 && !pack) || (case == 777 && pack)) && matches!(dir, Dir::Fwd) && matches!(obj, MatmulHelperObjective::CipherPlain);
+            let vclass = if sampled { "random" } else { *rng.pick(&U_CLASSES) };
             let info = json!({"helper": "MatmulHelper", "N": n, "scheme": sname, "t": t, "shape_m_r_n": [m, r, k], "objective": obj_name(obj), "pack_lwe": pack,
                 "direction": format!("{:?}", dir), "values": vclass, "blocks_split": split, "qs": spec.qs});
             let mut cx = Cx { cfg, rep: &mut *rep, grp, case, class: format!("pack_lwe={}", pack as u8), info, failed: false };
@@ -489,7 +495,7 @@ fn cheetah_case(cfg: &Cfg, grp: &'static str, case: u64, rng: &mut Rng, rep: &mu
             let trivial = vclass == "zero_w";
             let cls = format!("cheetah|{}|{}|{}|{}|{:?}|{},{},{}", n, sname, obj_name(obj), pack as u8, dir, m, r, k);
             rep.eval(if trivial { None } else { Some(&cls) });
-            if !failed && !large && ((case == 5 && !pack) || (case == 505 && pack)) && matches!(dir, Dir::Fwd) && matches!(obj, MatmulHelperObjective::CipherPlain) { rep.sample(info); }
+            if !failed && sampled { rep.sample(info); }
         }
     } }
 }
@@ -556,7 +562,8 @@ fn conv_case(cfg: &Cfg, grp: &'static str, case: u64, rng: &mut Rng, rep: &mut R
             if cb == 0 { split.push_str("+batch?"); }
         }
     }
-    let vclass = *rng.pick(&U_CLASSES);
+    let sampled = (grp == "conv" && case == 7) || (grp == "conv_large" && case == 25);
+    let vclass = if sampled { "random" } else { *rng.pick(&U_CLASSES) };
     let info = json!({"helper": "Conv2dHelper", "N": n, "scheme": sname, "t": t, "batch": s.b, "channels_in": s.ci, "channels_out": s.co, "image_h_w": [s.h, s.w], "kernel_h_w": [s.kh, s.kw],
         "objective": obj_name(obj), "direction": format!("{:?}", dir), "values": vclass, "blocks_split": split, "qs": spec.qs});
     rep.count("conv_config", &format!("N={}|{}|{}|{:?}", n, sname, obj_name(obj), dir));
@@ -585,7 +592,7 @@ fn conv_case(cfg: &Cfg, grp: &'static str, case: u64, rng: &mut Rng, rep: &mut R
     let trivial = vclass == "zero_w";
     let cls = format!("conv|{}|{}|{}|{:?}|{:?}", n, sname, obj_name(obj), dir, s);
     rep.eval(if trivial { None } else { Some(&cls) });
-    if !failed && ((grp == "conv" && case == 7) || (grp == "conv_large" && case == 25)) { rep.sample(info); }
+    if !failed && sampled { rep.sample(info); }
 }
 
 // ------------------------------------------------------------------ group: BOLT slot-packing helpers
@@ -630,7 +637,8 @@ fn bolt_case(cfg: &Cfg, grp: &'static str, case: u64, rng: &mut Rng, rep: &mut R
     let s = n / ceil_two_power(mm);
     let partial = match kind { 0 => r % s != 0 || k % s != 0, 1 => r % s != 0 || mm % s != 0, _ => k % s != 0 || mm % s != 0 };
     let over_half = match kind { 0 => m > n / 2, 1 => m.max(k) > n / 2, _ => m.max(r) > n / 2 };
-    let vclass = *rng.pick(&U_CLASSES);
+    let sampled = (grp == "bolt" && case == 156) || (grp == "bolt_large" && case == 1);
+    let vclass = if sampled { "random" } else { *rng.pick(&U_CLASSES) };
     let mut x = gen_u(rng, m * r, t, vclass); let mut w = gen_u(rng, r * k, t, vclass);
     shape_values_u(vclass, &mut x, &mut w, m, r, k);
     let bias = gen_u(rng, m * k, t, "random");
@@ -642,7 +650,7 @@ fn bolt_case(cfg: &Cfg, grp: &'static str, case: u64, rng: &mut Rng, rep: &mut R
     let trivial = vclass == "zero_w";
     let cls = format!("bolt|{}|{}|{},{},{}", hn, n, m, r, k);
     rep.eval(if trivial { None } else { Some(&cls) });
-    if !failed && grp == "bolt" && case == 3 { rep.sample(info); }
+    if !failed && sampled { rep.sample(info); }
 }
 
 fn bolt_flow(cx: &mut Cx, rng: &mut Rng, kit: &Kit, be: &BatchEncoder, h: &Bolt, hn: &str, gk: &GaloisKeys, rk: &RelinKeys,
@@ -877,7 +885,7 @@ pub fn run(cfg: &Cfg, rep: &mut Report) -> PropMeta {
     run_cases(cfg, "minimal", 2, rep, |i, rng, rep| minimal_case(cfg, i, rng, rep));
 
     // ---- Cheetah: every shape of the box x N x scheme (objectives, packing, directions inside the case)
-    let boxmax = cfg.pick(7usize, 10usize);
+    let boxmax = 10usize;
     let mut cheetah: Vec<(usize, bool, (usize, usize, usize))> = vec![];
     for &n in &[8usize, 16, 32] { for ckks in [false, true] { for s in cheetah_shapes(n, boxmax) { cheetah.push((n, ckks, s)); } } }
     timed(rep, "cheetah", |rep| run_cases(cfg, "cheetah", cheetah.len() as u64, rep, |i, rng, rep| { let (n, ckks, s) = cheetah[i as usize]; cheetah_case(cfg, "cheetah", i, rng, rep, n, ckks, s, false) }));
@@ -889,7 +897,7 @@ pub fn run(cfg: &Cfg, rep: &mut Report) -> PropMeta {
     }
 
     // ---- BOLT: every shape of the box at N = 16, 32 for the three helpers, plus shapes beyond N/2 rows
-    let bbox = cfg.pick(6usize, 8usize);
+    let bbox = 8usize;
     let mut bolt: Vec<(usize, usize, (usize, usize, usize))> = vec![];
     for kind in 0..3 { for &n in &[16usize, 32] {
         for m in 1..=bbox { for r in 1..=bbox { for k in 1..=bbox { bolt.push((kind, n, (m, r, k))); } } }
@@ -945,7 +953,7 @@ pub fn run(cfg: &Cfg, rep: &mut Report) -> PropMeta {
     // ---- rns_plain
     timed(rep, "rns_plain", |rep| run_cases(cfg, "rns_plain", cfg.n(2000, 20000) as u64, rep, |i, rng, rep| rns_case(cfg, i, rng, rep)));
 
-    let rule_quick = "Cheetah MatmulHelper: every shape (m,r,n) in [1,7]^3 plus the boundary shapes with dimensions from {N-1,N,N+1,2N+1,3N} (one, two or three large dimensions), at N in {8,16,32} x {BFV t=2^k, CKKS} x 3 objectives x pack_lwe on/off x {matmul, matmul_reverse, and their sum for CpAddPc}: this finite configuration space is enumerated completely (operand value class, t, transport {serialize_terms, serialize, none} and encryption mode are sampled per configuration). BOLT Cp/CcCr/CcDc: every shape in [1,6]^3 plus 9 shapes beyond N/2 rows at N in {16,32}. Conv2dHelper: 9 designated shapes x 12 variants plus 8000 sampled (batch, cin, cout in [1,3], kernel 1..4 x 1..4, image up to 12x12, N in {32,64,128}, 3 objectives, both directions, BFV/CKKS). rns_plain: 2000 programs (2-4 plain moduli, slot and polynomial mode). distinct = distinct (helper, N, scheme, objective, packing, direction, shape) with a non-zero weight operand";
+    let rule_quick = "Cheetah MatmulHelper: every shape (m,r,n) in [1,10]^3 plus the boundary shapes with dimensions from {N-1,N,N+1,2N+1,3N} (one, two or three large dimensions), at N in {8,16,32} x {BFV t=2^k, CKKS} x 3 objectives x pack_lwe on/off x {matmul, matmul_reverse, and their sum for CpAddPc}: this finite configuration space is enumerated completely (operand value class, t, transport {serialize_terms, serialize, none} and encryption mode are sampled per configuration). BOLT Cp/CcCr/CcDc: every shape in [1,8]^3 plus 9 shapes beyond N/2 rows at N in {16,32}. Conv2dHelper: 9 designated shapes x 12 variants plus 8000 sampled (batch, cin, cout in [1,3], kernel 1..4 x 1..4, image up to 12x12, N in {32,64,128}, 3 objectives, both directions, BFV/CKKS). rns_plain: 2000 programs (2-4 plain moduli, slot and polynomial mode). distinct = distinct (helper, N, scheme, objective, packing, direction, shape) with a non-zero weight operand";
     let rule_thorough = "Cheetah MatmulHelper: every shape (m,r,n) in [1,10]^3 plus the boundary shapes with dimensions from {N-1,N,N+1,2N+1,3N} (one, two or three large dimensions), at N in {8,16,32} x {BFV t=2^k, CKKS} x 3 objectives x pack_lwe on/off x {matmul, matmul_reverse, and their sum for CpAddPc}: this finite configuration space is enumerated completely (operand value class, t, transport {serialize_terms, serialize, none} and encryption mode are sampled per configuration); plus 4 example shapes at N in {1024,4096,8192}. BOLT Cp/CcCr/CcDc: every shape in [1,8]^3 plus 9 shapes beyond N/2 rows at N in {16,32}, plus partial-last-block shapes at N in {64,256,1024,4096}. Conv2dHelper: 9 designated shapes x 12 variants, 120000 sampled (batch, cin, cout in [1,3], kernel 1..4 x 1..4, image up to 12x12, N in {32,64,128}, 3 objectives, both directions, BFV/CKKS) and 4 large shapes at N in {1024,4096}. rns_plain: 20000 programs (2-4 plain moduli, slot and polynomial mode). distinct = distinct (helper, N, scheme, objective, packing, direction, shape) with a non-zero weight operand";
     PropMeta {
         id: P, level: "exploration",
@@ -959,6 +967,6 @@ pub fn run(cfg: &Cfg, rep: &mut Report) -> PropMeta {
             "operand values are sampled (classes: random, all maximal, sparse, zero weights, zero last output column/channel, zero last input row/image); the enumeration is over shapes and configurations, not values".into(),
         ],
         exhaustive: true,
-        floor: cfg.pick(30000, 180000),
+        floor: cfg.pick(80000, 180000),
     }
 }
